@@ -51,6 +51,9 @@ type beh struct {
 	preload bool
 	goSide  bool // registered through L.PreloadModule
 	inCo    bool // the dependencies are required from inside a coroutine created by the loader
+	// useModule: the loader calls module(name, package.seeall), the standard way of assigning package.loaded[name]
+	// oneself; the module table lives on in the global of that name and is found again by a later load
+	useModule bool
 }
 
 func (b *beh) id() string {
@@ -74,6 +77,9 @@ func (b *beh) String() string {
 	}
 	if b.assign {
 		parts = append(parts, "assigns package.loaded")
+	}
+	if b.useModule {
+		parts = append(parts, "calls module()")
 	}
 	parts = append(parts, []string{"returns nothing", "returns a table", "returns a string", "returns a number", "returns true"}[b.ret])
 	if b.raise {
@@ -99,6 +105,9 @@ func body(name string, b *beh) string {
 	}
 	if b.assign {
 		fmt.Fprintf(&sb, "package.loaded[%q] = mk(%q, \"A\")\n", name, name)
+	}
+	if b.useModule {
+		fmt.Fprintf(&sb, "module(%q, package.seeall)\nif not id then _G.CNT = _G.CNT + 1; id = \"M:\" .. _NAME .. \"#\" .. _G.CNT end\n", name)
 	}
 	if b.raise {
 		fmt.Fprintf(&sb, "error(\"LOADFAIL:%s\")\n", name)
@@ -144,6 +153,7 @@ type mstate struct {
 	files    map[string]*beh   // name -> file behaviour (nil = absent)
 	isDir    map[string]bool
 	preload  map[string]*beh
+	modTab   map[string]string // name -> descriptor of the table module(name) created (it stays in the global)
 }
 
 type outcome struct {
@@ -217,6 +227,14 @@ func (m *modelRun) require(name string) (ok bool, vals []string, errK string) {
 		assigned = fmt.Sprintf("T:A:%s#%d", name, *m.cnt)
 		st.loaded[name] = assigned
 	}
+	if b.useModule {
+		if st.modTab[name] == "" {
+			*m.cnt++
+			st.modTab[name] = fmt.Sprintf("T:M:%s#%d", name, *m.cnt)
+		}
+		assigned = st.modTab[name]
+		st.loaded[name] = assigned
+	}
 	if b.raise {
 		if assigned == "" {
 			st.poisoned[name] = true
@@ -274,9 +292,15 @@ func (e *Engine) Run(t *core.Tape, cfg *core.Config, st *core.Stats) (viol *core
 			L.RaiseError("SIMFAULT injected into a running loader")
 		}
 	})
-	pathVal := filepath.Join(dir, "?.lua") + ";" + filepath.Join(dir, "?", "init.lua")
+	// the third template runs through a regular file: looking a module up there fails with "not a directory",
+	// not with "no such file" - it was tried all the same and belongs into the not-found message
+	plain := filepath.Join(dir, "plainfile")
+	if err := os.WriteFile(plain, []byte("x"), 0o600); err != nil {
+		panic(err)
+	}
+	pathVal := filepath.Join(dir, "?.lua") + ";" + filepath.Join(dir, "?", "init.lua") + ";" + filepath.Join(plain, "?.lua")
 	L.SetField(L.GetGlobal("package"), "path", lua.LString(pathVal))
-	ms := &mstate{loaded: map[string]string{}, poisoned: map[string]bool{}, files: map[string]*beh{}, isDir: map[string]bool{}, preload: map[string]*beh{}}
+	ms := &mstate{loaded: map[string]string{}, poisoned: map[string]bool{}, files: map[string]*beh{}, isDir: map[string]bool{}, preload: map[string]*beh{}, modTab: map[string]string{}}
 	cnt := 0
 	ver := 0
 	var log []string
@@ -322,10 +346,28 @@ func (e *Engine) Run(t *core.Tape, cfg *core.Config, st *core.Stats) (viol *core
 			b.deps = []string{names[t.Choose(2)]}
 		}
 		b.inCo = len(b.deps) > 0 && t.Choose(4) == 0
+		if !b.assign && !strings.Contains(name, ".") && t.Choose(5) == 0 {
+			b.useModule = true
+		}
 		return b
 	}
 	reduced := cfg.Sub == "short"
 	lazySeq := 0
+	// resyncMod reads back which module tables module() has left in the globals (after a run whose course the model
+	// does not know: an injected error, a dependency whose earlier load had failed)
+	resyncMod := func() *core.Violation {
+		for _, n := range names {
+			if strings.Contains(n, ".") {
+				continue
+			}
+			d, v := runLua(fmt.Sprintf("local g = rawget(_G, %q); if type(g) == \"table\" and type(rawget(g, \"id\")) == \"string\" then return \"T:\" .. rawget(g, \"id\") end; return \"\"", n))
+			if v != nil {
+				return v
+			}
+			ms.modTab[n] = d
+		}
+		return nil
+	}
 	nn := len(names)
 	if reduced {
 		nn = 2
@@ -394,6 +436,9 @@ func (e *Engine) Run(t *core.Tape, cfg *core.Config, st *core.Stats) (viol *core
 					return v
 				}
 				fmt.Sscan(c, &cnt)
+				if v := resyncMod(); v != nil {
+					return v
+				}
 				continue
 			}
 			mr := &modelRun{st: ms, cnt: &cnt}
@@ -478,7 +523,7 @@ func (e *Engine) Run(t *core.Tape, cfg *core.Config, st *core.Stats) (viol *core
 					}
 					st.Probe("loop_error")
 				case "notfound":
-					for _, want := range []string{fpath, filepath.Join(dir, fileKey(name), "init.lua"), "preload"} {
+					for _, want := range []string{fpath, filepath.Join(dir, fileKey(name), "init.lua"), filepath.Join(plain, fileKey(name)+".lua"), "preload"} {
 						if !strings.Contains(gotVal, want) {
 							return fail("wrong-error", "require(%q): the not-found error must list what was tried (missing %q): %q", name, want, gotVal)
 						}
@@ -490,6 +535,9 @@ func (e *Engine) Run(t *core.Tape, cfg *core.Config, st *core.Stats) (viol *core
 			}
 			if fuzzy {
 				// resynchronise the model with reality
+				if v := resyncMod(); v != nil {
+					return v
+				}
 				for _, n := range names {
 					d, v := runLua(fmt.Sprintf("return desc(package.loaded[%q])", n))
 					if v != nil {
@@ -563,7 +611,12 @@ func (e *Engine) Run(t *core.Tape, cfg *core.Config, st *core.Stats) (viol *core
 			b := &beh{ver: ver, preload: true, goSide: true}
 			id := b.id()
 			nm := name
-			L.PreloadModule(name, func(L *lua.LState) int {
+			rereg := t.Choose(3) == 0 // the loader registers itself again while it runs (a host library's "register all")
+			var loader lua.LGFunction
+			loader = func(L *lua.LState) int {
+				if rereg {
+					L.PreloadModule(nm, loader)
+				}
 				lg := L.GetGlobal("LOG").(*lua.LTable)
 				lg.Append(lua.LString(fmt.Sprintf("run:%s:%s", nm, id)))
 				L.Push(L.GetGlobal("mk"))
@@ -571,7 +624,11 @@ func (e *Engine) Run(t *core.Tape, cfg *core.Config, st *core.Stats) (viol *core
 				L.Push(lua.LString("G"))
 				L.Call(2, 1)
 				return 1
-			})
+			}
+			L.PreloadModule(name, loader)
+			if rereg {
+				st.Probe("go_loader_registers_itself_again")
+			}
 			ms.preload[name] = b
 			log = append(log, fmt.Sprintf("L.PreloadModule(%q) %s", name, b))
 			st.Probe("preload_host")
